@@ -83,13 +83,20 @@ def run(tier):
             slot, pos = info["slot"], info["pos"]
             t = slot[0]
             contexts = [None]
-            if pos == "alone":
+            if pos == "alone" or (pos == "first" and slot[2] in ("block", "blocklist", "kv", "points", "projection", "enum")):
+                # nested one level: the same probe as the first thing inside every parent that can hold this block type
                 contexts += [tuple(p) for p in parents.get(t, [])]
             for ctxp in contexts:
                 conc = faults.ValidRenderer(seed, avoid_quote="\"")   # strings containing the output quote are outside the guarantee
                 acts = concretise.with_root(copy.deepcopy(h), t)
                 if t == "layer" and slot[1] != "type":
-                    acts.insert(1, {"a": "attr", "key": "type", "kc": "U", "val": {"sh": "enum", "w": "point", "cs": "U"}})
+                    tattr = {"a": "attr", "key": "type", "kc": "U", "val": {"sh": "enum", "w": "point", "cs": "U"}}
+                    if pos in ("first", "alone"):
+                        # keep the probed keyword the very first thing in the block: the required TYPE goes last
+                        k = next((i for i, a in enumerate(acts) if a["a"] == "finish"), len(acts))
+                        acts.insert(k, tattr)
+                    else:
+                        acts.insert(1, tattr)
                 root = t
                 if ctxp is not None:
                     pt = ctxp[0]
@@ -112,7 +119,7 @@ def run(tier):
                     ck.violation("C19|parse|%s|%s" % (where, type(ex).__name__), "schema keyword/alternative not parseable here: %s" % str(ex)[:100],
                                  {"text": text})
                     continue
-                if ctxp is None and not (t == "layer" and slot[1] != "type"):
+                if ctxp is None and not (t == "layer" and slot[1] != "type"):   # (the inserted TYPE is not part of the predicted dict)
                     # stored where the contract (and every parent schema) says: singleton vs plural list key
                     es, rs = skeleton_expected(h[-1]["post"]), skeleton_real(project.project(d))
                     if es != rs:
